@@ -158,3 +158,19 @@ def register(claim):
         'induction in specs/c15.md; it is not enumerated.',
         'algebraic value numbering over a scripted symbolic environment vs reference transition',
         'DESIGN.md §3 C15')
+
+  claim('C17', 'other',
+        'Static finite-state exploration: Queue / UniformSamplingQueue / PmapWrapper / PjitWrapper are '
+        'abstractly interpreted from their AST (constructors, host-side check_can_* bookkeeping, '
+        'device-side *_internal transitions) with symbolic records and concrete cursor values; from '
+        'init every reachable abstract state (modulo renaming of records by age) under insert k / '
+        'sample is generated until closure and compared, with every returned batch and refusal, to '
+        'the reference bounded FIFO; sharded wrappers against per-shard queues with shard-major '
+        'interleaving; uniform sampling index range and key threading by provenance.  Exhaustive in '
+        'operation sequences (any length) for each instantiated capacity/batch/mode.',
+        'Trusted: python ast, AVN interpreter, semantics of roll / dynamic_update_slice (clamped '
+        'start) / take(mode=wrap) / lax.cond / ravel_pytree; pmap and pjit modelled as an '
+        'independent map over the device axis.  Capacities 1-5, batches 1-4, 2-4 shards '
+        'instantiated; device placement not decided.',
+        'finite-state exploration of the queue control state by abstract interpretation of the AST',
+        'DESIGN.md §3 C17')
